@@ -84,13 +84,13 @@ def main():
     if "--jobs" in sys.argv:
         jobs = int(sys.argv[sys.argv.index("--jobs") + 1])
     only = [a for a in sys.argv[1:] if re.match(r"C\d\d", a)]
-    rnd = 5 if "--round5" in sys.argv else 4 if "--round4" in sys.argv else 3 if "--round3" in sys.argv else 2 if "--round2" in sys.argv else 1
+    rnd = 6 if "--round6" in sys.argv else 5 if "--round5" in sys.argv else 4 if "--round4" in sys.argv else 3 if "--round3" in sys.argv else 2 if "--round2" in sys.argv else 1
     items = []
     for i in range(1, 21):
         for k in (1, 2, 3):
-            sid = {1: "C%02d_m%d", 2: "C%02d_r2m%d", 3: "C%02d_r3m%d", 4: "C%02d_r4m%d", 5: "C%02d_r5m%d"}[rnd] % (i, k)
+            sid = {1: "C%02d_m%d", 2: "C%02d_r2m%d", 3: "C%02d_r3m%d", 4: "C%02d_r4m%d", 5: "C%02d_r5m%d", 6: "C%02d_r6m%d"}[rnd] % (i, k)
             src = {1: "/tmp/mut_C%02d/mutants/m%d", 2: "/tmp/mut2_C%02d/mutants/m%d", 3: "/tmp/mut3_C%02d/mutants/m%d",
-                   4: V + "/.work/mut4_raw/C%02d/m%d", 5: V + "/.work/mut5_raw/C%02d/m%d"}[rnd] % (i, k)
+                   4: V + "/.work/mut4_raw/C%02d/m%d", 5: V + "/.work/mut5_raw/C%02d/m%d", 6: V + "/.work/mut6_raw/C%02d/m%d"}[rnd] % (i, k)
             kept = os.path.join(V, "seeded", sid)
             if os.path.exists(os.path.join(kept, "patch.diff")):
                 src = kept
